@@ -6,8 +6,10 @@ Driver of C18. Two case kinds (payload, space separated):
 
 * `L <src-hex>` — result: `pos,line,col` of every token the lexer emits (comments, EOF and
   error token included), joined by single spaces.
-* `E <P|R|X> <src-hex> <off> [<calloff>]` — a program with a planted parse (`P`) or runtime (`R`)
-  error, or a runtime error the program catches itself (`X`), whose offending token starts at
+* `E <P|R|X|A|Y> <src-hex> <off> [<calloff>]` — a program with a planted parse (`P`) or runtime (`R`)
+  error, or a runtime error the program catches itself (`X`); `A` / `Y`: the same two for a failed
+  variable / container access or import, which the code reports WITHOUT position (known finding
+  access-errors-unpositioned: result `unpositioned`, `spec=` the positioned answer). The offending token starts at
   byte offset `off` (`eof`: the EOF token). Result: `line,col` of that token in the lexer model,
   once per observable (P: Line/Pos fields, numbers in the message text; R: fields, text, node
   line/linepos in MarshalJSON; X: `e.line`, `e.pos` of the except object) and, with `calloff`, the
@@ -188,7 +190,7 @@ def errCase (kind : String) (src : List Nat) (off : String) (calloff : Option St
     else match off.toNat? with
       | some o => toks.find? fun t => t.pos = o && real t
       | none => none
-  let n := if kind = "P" then 2 else if kind = "R" then 3 else 1
+  let n := if kind = "P" then 2 else if kind = "R" || kind = "A" then 3 else 1
   match tok? with
   | none => "no-token-at-offset"
   | some t =>
@@ -206,7 +208,15 @@ def errCase (kind : String) (src : List Nat) (off : String) (calloff : Option St
             else some [{ model := l, spec := s!"{lineOf inp o}", alts := [l], deviates := true, cls := "unexplained-position", isEof := false }]
     match call with
     | none => "no-call-token-at-offset"
-    | some cj => render (List.replicate n j ++ cj) (t.line > 1)
+    | some cj =>
+      let js := List.replicate n j ++ cj
+      if kind = "A" || kind = "Y" then
+        -- known finding access-errors-unpositioned: the code as it is reports no position at all;
+        -- asked for (and accepted from a repaired tree): the position of the identifier / import
+        -- token, token by token as in kinds R / X
+        "unpositioned\tnt=1\tkf=access-errors-unpositioned\tspec=" ++ " ".intercalate (js.map (·.model))
+          ++ (if js.all (·.alts.length ≤ 1) then "" else "\talt=" ++ " ".intercalate (js.map fun x => "|".intercalate x.alts))
+      else render js (t.line > 1)
 
 /-- tokens the parser sees (comments are attached to nodes as meta data, never parsed) -/
 def parserToks (src : List Nat) : List Tok :=
